@@ -597,6 +597,7 @@ theorem gen_vec_shrink_to_fit (c : Cfg) (v : VS) (w : W) (hb : c.esz * v.cap < U
 
 /-- `Vec::new_in` -/
 theorem gen_vec_new_in (c : Cfg) : Gen.Fn.vec_new_in c () = .ok newVec := rfl
+theorem gen_rv_new_in (c : Cfg) : Gen.Fn.rv_new_in c () = .ok newVec := rfl
 
 /-- `RawVec::allocate_in` as translated is the model's `withCapacity` (`none` = panic) -/
 theorem gen_rv_allocate_in (c : Cfg) (n : Nat) (z : Bool) :
